@@ -86,12 +86,12 @@ theorem query_packet_decodes (labels : List Bytes) (qid ar qt : Nat) (tail : Byt
     (hlab : ∀ l ∈ labels, 1 ≤ l.length ∧ l.length ≤ maxLabelSz) (hfit : wireLen labels < nameBufSz)
     (har : ar < 65536) (hqt : qt < 65536) :
     messageUnpack (headerBytes (queryHeader qid ar) ++ (wire labels ++ [0]) ++ (be16 qt ++ be16 classIN) ++ tail) =
-      .ret 0 (some ⟨queryHeader qid ar, ⟨nameOut labels, qt, classIN⟩, []⟩) := by
+      .ret 0 (some ⟨queryHeader qid ar, ⟨nameText labels, qt, classIN⟩, []⟩) := by
   have hhl := queryHeader_length qid ar
   have henc := encName_wire labels (headerBytes (queryHeader qid ar)) ((be16 qt ++ be16 classIN) ++ tail) hlab
   rw [hhl] at henc
   have hm : EncMsg (headerBytes (queryHeader qid ar) ++ (wire labels ++ [0]) ++ (be16 qt ++ be16 classIN) ++ tail)
-      ⟨queryHeader qid ar, ⟨nameOut labels, qt, classIN⟩, []⟩ := by
+      ⟨queryHeader qid ar, ⟨nameText labels, qt, classIN⟩, []⟩ := by
     refine ⟨?_, ?_, rfl, rfl, 0, 12 + wireLen labels + 1, labels, ?_, by omega, hfit, rfl,
             hqt, classIN_lt, ?_, EncRRs.nil⟩
     · simp only [Header.wf, queryHeader]
@@ -111,30 +111,38 @@ theorem query_packet_decodes (labels : List Bytes) (qid ar qt : Nat) (tail : Byt
 def optBytes (edns : Nat) : Bytes :=
   [0] ++ be16 typeOPT ++ be16 ((if edns < udpRcvBuf - 1 then edns else udpRcvBuf - 1) % 65536) ++ be32 0 ++ be16 0
 
-theorem optPack_ok (sz edns : Nat) (hsz : 11 ≤ sz) : optPack sz edns = .ok (optBytes edns, true) := by
+theorem rrPackGuardsNull_eq : rrPackGuardsNull = true := by decide
+
+/-- the OPT record is packed; memcpy sees a null source exactly in the unguarded (pre-17d6e84) version -/
+theorem optPackV_ok (guard : Bool) (sz edns : Nat) (hsz : 11 ≤ sz) :
+    optPackV guard sz edns = .ok (optBytes edns, !guard) := by
   have ht : tokens [46] = [] := by decide
-  unfold optPack rrPack namePack
+  unfold optPackV rrPackV namePack
   rw [ht]
   have g1 : ([] : Bytes).length < sz := by simp; omega
   have g2 : ¬ (([] ++ [0] : Bytes).length + 10 + 0 > sz) := by simp; omega
   simp only [packLabels, g1, g2, ↓reduceIte, optBytes]
   simp
 
+theorem optPack_ok (sz edns : Nat) (hsz : 11 ≤ sz) : optPack sz edns = .ok (optBytes edns, false) := by
+  unfold optPack
+  rw [rrPackGuardsNull_eq, optPackV_ok true sz edns hsz]
+  rfl
+
 /-- **A packed query decodes back to itself.** For a host name whose pieces between dots are `labels` (each 1..63
 octets), shorter than the name buffer, and a buffer with room for it, rfc1035BuildAQuery / rfc1035BuildPTRQuery /
 rfc3596BuildHostQuery produce a packet that rfc1035MessageUnpack decodes to: result 0, id `qid`, RD set, one question
-with the dotted name, the query type and class IN, no records, ARCOUNT 1 exactly when EDNS is on. With EDNS the packer
-calls memcpy with a null pointer on the way (`b.ub = true`). -/
+with the dotted name, the query type and class IN, no records, ARCOUNT 1 exactly when EDNS is on; memcpy is never handed a null pointer (`b.ub = false`). -/
 theorem query_pack_unpack (sz : Nat) (host : Bytes) (labels : List Bytes) (qid qtype : Nat) (edns : Int)
     (htok : tokens host = labels)
     (hlab : ∀ l ∈ labels, 1 ≤ l.length ∧ l.length ≤ maxLabelSz)
     (hfit : wireLen labels < nameBufSz)
     (hsz : 12 + wireLen labels + 1 + 4 + (if edns > 0 then 11 else 0) ≤ sz) :
-    ∃ b, buildQuery sz host qid qtype edns = .ok b ∧ b.ub = decide (edns > 0) ∧
+    ∃ b, buildQuery sz host qid qtype edns = .ok b ∧ b.ub = false ∧
       b.pkt.length = 12 + wireLen labels + 1 + 4 + (if edns > 0 then 11 else 0) ∧
       b.qname = host.take (nameBufSz - 1) ∧ b.qtype = qtype % 65536 ∧ b.qclass = classIN ∧
       messageUnpack b.pkt = .ret 0 (some
-        ⟨queryHeader qid (if edns > 0 then 1 else 0), ⟨nameOut labels, qtype % 65536, classIN⟩, []⟩) := by
+        ⟨queryHeader qid (if edns > 0 then 1 else 0), ⟨nameText labels, qtype % 65536, classIN⟩, []⟩) := by
   have hpack : maxLabelPack = maxLabelSz := by decide
   have hszmin : 12 + wireLen labels + 1 + 4 ≤ sz := by omega
   have hhb : ∀ ar, headerPack sz (queryHeader qid ar) = .ok (headerBytes (queryHeader qid ar)) := by
@@ -163,12 +171,12 @@ theorem query_pack_unpack (sz : Nat) (host : Bytes) (labels : List Bytes) (qid q
     have hol : (optBytes edns.toNat).length = 11 := by simp [optBytes, be16, be32]
     have hbuild : buildQuery sz host qid qtype edns =
         .ok ⟨headerBytes (queryHeader qid 1) ++ (wire labels ++ [0] ++ be16 (qtype % 65536) ++ be16 classIN) ++ optBytes edns.toNat,
-             true, host.take (nameBufSz - 1), qtype % 65536, classIN⟩ := by
+             false, host.take (nameBufSz - 1), qtype % 65536, classIN⟩ := by
       have hb1 := hhb 1
       have : 12 + (wireLen labels + 1 + 4) + 11 ≤ sz := by omega
       unfold buildQuery
       simp only [he, ↓reduceIte, hb1, queryHeader_length, hqp, hql, hopt, hol, this]
-    refine ⟨_, hbuild, by simp [he], ?_, rfl, rfl, rfl, ?_⟩
+    refine ⟨_, hbuild, rfl, ?_, rfl, rfl, rfl, ?_⟩
     · show (headerBytes (queryHeader qid 1) ++ (wire labels ++ [0] ++ be16 (qtype % 65536) ++ be16 classIN) ++
           optBytes edns.toNat).length = _
       rw [List.length_append, List.length_append, queryHeader_length, hql, hol]
@@ -184,7 +192,7 @@ theorem query_pack_unpack (sz : Nat) (host : Bytes) (labels : List Bytes) (qid q
       have : 12 + (wireLen labels + 1 + 4) ≤ sz := by omega
       unfold buildQuery
       simp only [he, ↓reduceIte, hb0, queryHeader_length, hqp, hql, this]
-    refine ⟨_, hbuild, by simp [he], ?_, rfl, rfl, rfl, ?_⟩
+    refine ⟨_, hbuild, rfl, ?_, rfl, rfl, rfl, ?_⟩
     · show (headerBytes (queryHeader qid 0) ++ (wire labels ++ [0] ++ be16 (qtype % 65536) ++ be16 classIN)).length = _
       rw [List.length_append, queryHeader_length, hql]
       simp only [he, ↓reduceIte]
